@@ -23,7 +23,8 @@ augment is visible exactly in the revision its import denotes, or reported when 
 "conflict-then-removed" (two augments that conflict on a target which a deviate not-supported then removes, itself or
 through an ancestor: the conflict must still be reported), "late-parse" (history on one Modules value: target modules
 parsed, GetModule, augmenting modules parsed, GetModule again - must equal the fresh batch; harness command c18proc),
-"submodule-prefixes" (augments written in a submodule whose own imports / belongs-to prefix differ from its module's:
+"implicit-case-rpc-only" (shorthand choice members only inside rpc / action input and output, chains starting below the
+case FixChoice inserts there), "submodule-prefixes" (augments written in a submodule whose own imports / belongs-to prefix differ from its module's:
 only the submodule imports the target, module and submodule bind one prefix to different modules, belongs-to prefix
 unlike the module's own).
 Every clean implementation result must also have an empty `treeviol`, no entry with augments left (`naugments`) and
@@ -841,6 +842,37 @@ def gen(tier, seed):
         for m in mods:
             rnd.shuffle(m["augments"])
         out.append((mods, dict(kinds=["conflict-under-not-supported"], chains=[1], errors=["conflict"], ic=False), "conflict-then-removed"))
+    # shorthand choice members ONLY inside rpc / action input and output (no implied case anywhere else in the set):
+    # chains that start below the implied case there, every written order and module order
+    for k in range(30 if tier == "quick" else 300):
+        g = AGen(rnd)
+        t2 = mk("t", "t")
+        t2["body"] = [
+            cont("c", [leaf("l")]),
+            ("choice", "xch", None, None, None, [("case", "xa", [leaf("xl")])]),      # explicit cases only
+            ("rpc", False, "r", [("choice", "ich", None, None, None, [cont("x", [leaf("y")]), ("case", "ia", [leaf("il")])])], None),
+            ("rpc", False, "ro", None, [("choice", "och", None, None, None, [cont("x", [leaf("y")])])]),
+            cont("ca", [("rpc", True, "act", [("choice", "ich", None, None, None, [cont("x", [leaf("y")])])],
+                         [("choice", "och", None, None, None, [cont("x", [leaf("y")]), leaf("osh")])])]),
+        ]
+        mods = [t2]
+        owners = [(t2, "t")]
+        for i in range(1, rnd.randint(1, 3) + 1):
+            p = rnd.choice(["t", "x%d" % i])
+            m = mk("maug%d" % i, "p%d" % i, imports=[(p, "t")])
+            mods.append(m)
+            owners.append((m, p))
+        steps = list(rnd.choice([["r", "input", "ich", "x", "x"], ["ro", "output", "och", "x", "x"],
+                                 ["ca", "act", "input", "ich", "x", "x"], ["ca", "act", "output", "och", "x", "x"]]))
+        n = rnd.choice([2, 2, 3, 4])
+        for i in range(n):
+            owner = rnd.choice(owners) if k % 2 else owners[min(len(owners) - 1, 1)]     # also: the whole chain in one module
+            nm = g.fresh("x")
+            owner[0]["augments"].append((path_of(owner[1], steps), [cont(nm, [leaf(g.fresh("al"))]), leaf(g.fresh("al"))]))
+            steps = steps + [nm]
+        for m in mods:
+            rnd.shuffle(m["augments"])
+        out.append((mods, dict(kinds=["implicit-case-in-rpc-only"], chains=[n], errors=[], ic=True), "implicit-case-rpc-only"))
     # paths through the implicit case (applied only by the pass after FixChoice)
     for _ in range(120 if tier == "quick" else 1200):
         g = AGen(rnd)
